@@ -35,7 +35,7 @@ impl Prop for C13Prop {
         let em = if rng.chance(3, 4) { Emphasis::mid_message() } else { Emphasis::inflation() };
         let mut s = smlgen::gen_file_scn(rng, tier, "C13", &em);
         if s.extra_polls == 0 && rng.chance(3, 4) {
-            s.extra_polls = *rng.pick(&[1usize, 2, 5, 64]);
+            s.extra_polls = *rng.pick(&[1usize, 2, 5, 64, 300, 70_000]);
         }
         Scenario::File(s)
     }
